@@ -647,11 +647,33 @@ theorem push_ite (c : Prop) [Decidable c] (vr : V2.T_ValidationResults) (is : Li
     (if c then push vr is else vr) = push vr (if c then is else []) := by
   by_cases h : c <;> simp [h]
 
+/-- what translated code reads of a parsed URL, from the model's `URL` -/
+def toGenURL (u : URL) : V2.T_url_URL :=
+  { f_Scheme := u.scheme, f_Path := u.path, f_User := if u.hasUser then some () else none, m_Hostname := u.hostname }
+
+/-- `Info.Validate` (rows I1-I3); `url.Parse` is a parameter (`opq.url_Parse`) assumed to behave as the model
+environment's `urlParse`; `len(s)` of a string is its UTF-8 byte length -/
+theorem v2_infoValidate (env : VEnv) (opq : V2.Opq)
+    (hUrl : ∀ x, opq.url_Parse x = (env.urlParse x).map toGenURL)
+    (e : Jwt.Val) (vr : V2.T_ValidationResults) :
+    V2.Info_Validate (V2.T_Info.ofVal e) vr opq = some (push vr (validateInfo env e)) := by
+  unfold V2.Info_Validate validateInfo
+  simp only [V2.T_Info.ofVal, strLen, hUrl, Gen.V2.cMaxInfoLength]
+  have h8 : ∀ s : Str, decide ((utf8Len s : Int) > 8192) = decide (utf8Len s > (8192 : Int).toNat) := by
+    intro s; congr 1; apply propext; constructor <;> intro h <;> omega
+  by_cases hu : (e.field "info_url").asStr = []
+  · simp [hu, h8, v2_addError, errIf, push_ite, ite_some]
+  · cases hp : env.urlParse (e.field "info_url").asStr with
+    | none => simp [hu, h8, v2_addError, errIf, push_ite, push_push, ite_some]
+    | some u =>
+      by_cases hh : u.hostname = [] <;> by_cases hs : u.scheme = [] <;>
+        simp [hu, h8, v2_addError, errIf, push_ite, push_push, ite_some, toGenURL, hh, hs]
+
 /-- `Export.Validate` on the pointer value an exports list holds, read through the struct tags; `Info.Validate` is a
 parameter (`opq`) assumed to behave as the model's `validateInfo` -/
 theorem v2_exportValidate (env : VEnv) (opq : V2.Opq)
     (hInfo : ∀ (e : Jwt.Val) (vr : V2.T_ValidationResults),
-      opq.Info_Validate (V2.T_Info.ofVal e) vr = some (push vr (validateInfo env e)))
+      V2.Info_Validate (V2.T_Info.ofVal e) vr opq = some (push vr (validateInfo env e)))
     (ev : Jwt.Val) (vr : V2.T_ValidationResults) :
     V2.Export_Validate (optOfVal V2.T_Export.ofVal ev) vr opq = some (push vr (validateExport env ev)) := by
   unfold V2.Export_Validate validateExport
@@ -1051,7 +1073,7 @@ def strSubjectsOf (es : List Jwt.Val) : List Str :=
 
 theorem v2_exports_loop (env : VEnv) (opq : V2.Opq)
     (hInfo : ∀ (e : Jwt.Val) (vr : V2.T_ValidationResults),
-      opq.Info_Validate (V2.T_Info.ofVal e) vr = some (push vr (validateInfo env e))) :
+      V2.Info_Validate (V2.T_Info.ofVal e) vr opq = some (push vr (validateInfo env e))) :
     ∀ (es : List Jwt.Val) (i : Int) (vr : V2.T_ValidationResults) (svc strm : List Str),
     forRangeFrom (V2.Exports_Validate.loop1 opq) i (es.map (optOfVal V2.T_Export.ofVal)) (vr, svc, strm) =
       some (.done (push vr (es.flatMap (validateExport env)), svc ++ svcSubjectsOf es, strm ++ strSubjectsOf es)) := by
@@ -1085,7 +1107,7 @@ theorem v2_exports_loop (env : VEnv) (opq : V2.Opq)
 /-- `Exports.Validate` = the model's `validateExports` (rows E0–E13 per entry, EL1 over the list), and no error value -/
 theorem v2_exportsValidate (env : VEnv) (opq : V2.Opq)
     (hInfo : ∀ (e : Jwt.Val) (vr : V2.T_ValidationResults),
-      opq.Info_Validate (V2.T_Info.ofVal e) vr = some (push vr (validateInfo env e)))
+      V2.Info_Validate (V2.T_Info.ofVal e) vr opq = some (push vr (validateInfo env e)))
     (es : List Jwt.Val) (vr : V2.T_ValidationResults) :
     V2.Exports_Validate (es.map (optOfVal V2.T_Export.ofVal)) vr opq =
       some (push vr (validateExports env (Jwt.Val.list es)), false) := by
@@ -1751,7 +1773,7 @@ theorem validateExports_asList (env : VEnv) (v : Jwt.Val) :
     order of Go's map iteration (`v2_importsValidate`) -/
 theorem v2_accountBodyValidate (env : VEnv) (cr : Crypto) (opq : V2.Opq)
     (hInfo : ∀ (e : Jwt.Val) (vr : V2.T_ValidationResults),
-      opq.Info_Validate (V2.T_Info.ofVal e) vr = some (push vr (validateInfo env e)))
+      V2.Info_Validate (V2.T_Info.ofVal e) vr opq = some (push vr (validateInfo env e)))
     (hAtoi : ∀ x, opq.strconv_Atoi x = atoi x)
     (hAcct : ∀ x, opq.nkeys_IsValidPublicAccountKey x = validAcct x)
     (hUser : ∀ x, opq.nkeys_IsValidPublicUserKey x = validUser x)
@@ -1853,7 +1875,7 @@ theorem v2_accountBodyValidate (env : VEnv) (cr : Crypto) (opq : V2.Opq)
 /-- `AccountClaims.Validate`: the time checks, `Account.Validate`, then the self-signed-with-limits warning -/
 theorem v2_accountClaimsValidate (env : VEnv) (cr : Crypto) (opq : V2.Opq)
     (hInfo : ∀ (e : Jwt.Val) (vr : V2.T_ValidationResults),
-      opq.Info_Validate (V2.T_Info.ofVal e) vr = some (push vr (validateInfo env e)))
+      V2.Info_Validate (V2.T_Info.ofVal e) vr opq = some (push vr (validateInfo env e)))
     (hAtoi : ∀ x, opq.strconv_Atoi x = atoi x)
     (hAcct : ∀ x, opq.nkeys_IsValidPublicAccountKey x = validAcct x)
     (hUser : ∀ x, opq.nkeys_IsValidPublicUserKey x = validUser x)
@@ -1880,5 +1902,310 @@ theorem v2_accountClaimsValidate (env : VEnv) (cr : Crypto) (opq : V2.Opq)
   unfold validateAccount
   simp only [List.append_assoc]
   exact List.Perm.append_left _ (List.Perm.append hp (List.Perm.refl _))
+
+/-! ## The user side: `TimeRange.Validate`, `Limits.Validate`, `User.Validate`, `UserClaims.Validate` -/
+
+/-- `TimeRange.Validate` (rows U2a-b); `time.Parse("15:04:05", ·)` is a parameter assumed to fail exactly when the
+model environment's `clockOk` is false -/
+theorem v2_timeRangeValidate (env : VEnv) (opq : V2.Opq)
+    (hClock : ∀ x, opq.time_Parse "15:04:05".toList x = !env.clockOk x)
+    (tr : Jwt.Val) (vr : V2.T_ValidationResults) :
+    V2.TimeRange_Validate (V2.T_TimeRange.ofVal tr) vr opq = some (push vr (validateTimeRange env tr)) := by
+  unfold V2.TimeRange_Validate validateTimeRange
+  have hf : (['1', '5', ':', '0', '4', ':', '0', '5'] : Str) = "15:04:05".toList := by decide
+  simp only [V2.T_TimeRange.ofVal, hf, hClock]
+  by_cases h1 : (tr.field "start").asStr = [] <;> by_cases h2 : (tr.field "end").asStr = [] <;>
+    cases h3 : env.clockOk (tr.field "start").asStr <;> cases h4 : env.clockOk (tr.field "end").asStr <;>
+    simp [h1, h2, h3, h4, v2_addError, errIf, push_push]
+
+/-- `Limits.Validate` (rows U1-U3): the CIDR loop, the time ranges, the time zone; `net.ParseCIDR` and
+`time.LoadLocation` are parameters -/
+theorem v2_userLimitsValidate (env : VEnv) (opq : V2.Opq)
+    (hClock : ∀ x, opq.time_Parse "15:04:05".toList x = !env.clockOk x)
+    (hCidr : ∀ x, opq.net_ParseCIDR x = !env.cidrOk x)
+    (hTz : ∀ x, opq.time_LoadLocation x = !env.tzOk x)
+    (n : Jwt.Val) (vr : V2.T_ValidationResults) :
+    V2.Limits_Validate (V2.T_Limits.ofVal n) vr opq = some (push vr (validateUserLimits env n)) := by
+  have h1 : ∀ (i : Int) (x : Str) (w : V2.T_ValidationResults),
+      V2.Limits_Validate.loop1 opq i x w = some (.next (push w (errIf (!env.cidrOk x)))) := by
+    intro i x w
+    cases h : env.cidrOk x <;> simp [V2.Limits_Validate.loop1, hCidr, h, v2_addError, errIf]
+  have h2 : ∀ (i : Int) (t : Jwt.Val) (w : V2.T_ValidationResults),
+      V2.Limits_Validate.loop2 opq i (V2.T_TimeRange.ofVal t) w = some (.next (push w (validateTimeRange env t))) := by
+    intro i t w
+    simp [V2.Limits_Validate.loop2, v2_timeRangeValidate env opq hClock]
+  have h2' : ∀ (ts : List Jwt.Val) (i : Int) (w : V2.T_ValidationResults),
+      forRangeFrom (V2.Limits_Validate.loop2 opq) i (ts.map V2.T_TimeRange.ofVal) w =
+        some (.done (push w (ts.flatMap (validateTimeRange env)))) := by
+    intro ts
+    induction ts with
+    | nil => intro i w; simp [forRangeFrom]
+    | cons t ts ih => intro i w; simp [forRangeFrom, h2, ih, push_push]
+  have hk : ∀ k : Nat, ¬ ((k : Int) + 1 = 0) := by intro k; omega
+  unfold V2.Limits_Validate validateUserLimits
+  simp only [V2.T_Limits.ofVal, V2.T_UserLimits.ofVal, forRange, forRangeFrom_fold _ _ h1, foldl_push, h2', hTz, len,
+    List.length_map]
+  cases hs : (n.field "src").strs <;> cases ht : (n.field "times").asList <;>
+    by_cases hl : (n.field "times_location").asStr = [] <;> cases hz : env.tzOk (n.field "times_location").asStr <;>
+    simp [hl, hz, v2_addError, errIf, push_push, hk]
+
+theorem claimsData_ofVal (c : Jwt.Val) (vr : V2.T_ValidationResults) (now : Int) :
+    V2.ClaimsData_Validate (V2.T_ClaimsData.ofVal c) vr now = some (push vr (validateClaimsData now c)) := by
+  rw [v2_claimsDataValidate]; rfl
+
+/-- `User.Validate` = permissions, then limits (both read at the `nats` level: embedded structs) -/
+theorem v2_userBodyValidate (env : VEnv) (opq : V2.Opq)
+    (hClock : ∀ x, opq.time_Parse "15:04:05".toList x = !env.clockOk x)
+    (hCidr : ∀ x, opq.net_ParseCIDR x = !env.cidrOk x)
+    (hTz : ∀ x, opq.time_LoadLocation x = !env.tzOk x)
+    (n : Jwt.Val) (vr : V2.T_ValidationResults) :
+    V2.User_Validate (V2.T_User.ofVal n) vr opq =
+      some (push vr (validatePermissions n ++ validateUserLimits env n)) := by
+  have hp : (V2.T_User.ofVal n).f_UserPermissionLimits.f_Permissions = V2.T_Permissions.ofVal n := rfl
+  have hl : (V2.T_User.ofVal n).f_UserPermissionLimits.f_Limits = V2.T_Limits.ofVal n := rfl
+  simp [V2.User_Validate, hp, hl, v2_permissionsValidate, v2_userLimitsValidate env opq hClock hCidr hTz, push_push]
+
+/-- `UserClaims.Validate` = the model's `validateUser` (rows U1-U4 and the time checks) -/
+theorem v2_userClaimsValidate (env : VEnv) (opq : V2.Opq)
+    (hClock : ∀ x, opq.time_Parse "15:04:05".toList x = !env.clockOk x)
+    (hCidr : ∀ x, opq.net_ParseCIDR x = !env.cidrOk x)
+    (hTz : ∀ x, opq.time_LoadLocation x = !env.tzOk x)
+    (hAcct : ∀ x, opq.nkeys_IsValidPublicAccountKey x = validAcct x)
+    (c : Jwt.Val) (vr : V2.T_ValidationResults) (now : Int) :
+    V2.UserClaims_Validate (V2.T_UserClaims.ofVal c) vr now opq = some (push vr (validateUser env now c)) := by
+  have h1 : (V2.T_UserClaims.ofVal c).f_ClaimsData = V2.T_ClaimsData.ofVal c := rfl
+  have h2 : (V2.T_UserClaims.ofVal c).f_User = V2.T_User.ofVal (c.field "nats") := rfl
+  have h3 : (V2.T_User.ofVal (c.field "nats")).f_IssuerAccount = ((c.field "nats").field "issuer_account").asStr := rfl
+  unfold V2.UserClaims_Validate validateUser
+  simp only [h1, h2, h3, claimsData_ofVal, v2_userBodyValidate env opq hClock hCidr hTz, hAcct, v2_addError,
+    Option.pure_def, Option.bind_eq_bind, Option.bind_some, ite_some, push_ite, push_push, errIf]
+  by_cases hi : ((c.field "nats").field "issuer_account").asStr = [] <;>
+    cases hv : validAcct ((c.field "nats").field "issuer_account").asStr <;> simp [hi, hv]
+
+/-- `GenericClaims.Validate`: the time checks only -/
+theorem v2_genericClaimsValidate (c : Jwt.Val) (vr : V2.T_ValidationResults) (now : Int) :
+    V2.GenericClaims_Validate (V2.T_GenericClaims.ofVal c) vr now = some (push vr (validateClaimsData now c)) := by
+  have h1 : (V2.T_GenericClaims.ofVal c).f_ClaimsData = V2.T_ClaimsData.ofVal c := rfl
+  simp [V2.GenericClaims_Validate, h1, claimsData_ofVal]
+
+/-- `AuthorizationRequestClaims.Validate` (rows Q1-Q2) -/
+theorem v2_authRequestValidate (opq : V2.Opq) (hUser : ∀ x, opq.nkeys_IsValidPublicUserKey x = validUser x)
+    (c : Jwt.Val) (vr : V2.T_ValidationResults) (now : Int) :
+    V2.AuthorizationRequestClaims_Validate (V2.T_AuthorizationRequestClaims.ofVal c) vr now opq =
+      some (push vr (validateAuthRequest now c)) := by
+  have h1 : (V2.T_AuthorizationRequestClaims.ofVal c).f_ClaimsData = V2.T_ClaimsData.ofVal c := rfl
+  have h2 : (V2.T_AuthorizationRequestClaims.ofVal c).f_AuthorizationRequest.f_UserNkey =
+      ((c.field "nats").field "user_nkey").asStr := rfl
+  unfold V2.AuthorizationRequestClaims_Validate validateAuthRequest
+  simp only [h1, h2, hUser, claimsData_ofVal, v2_addError, Option.pure_def, Option.bind_eq_bind, Option.bind_some, ite_some,
+    push_ite, push_push, errIf]
+  by_cases hi : ((c.field "nats").field "user_nkey").asStr = [] <;>
+    cases hv : validUser ((c.field "nats").field "user_nkey").asStr <;> simp [hi, hv, push_push]
+
+/-- `AuthorizationResponseClaims.Validate` (rows R1-R5) -/
+theorem v2_authResponseValidate (opq : V2.Opq)
+    (hUser : ∀ x, opq.nkeys_IsValidPublicUserKey x = validUser x)
+    (hServer : ∀ x, opq.nkeys_IsValidPublicServerKey x = validServer x)
+    (hAcct : ∀ x, opq.nkeys_IsValidPublicAccountKey x = validAcct x)
+    (c : Jwt.Val) (vr : V2.T_ValidationResults) (now : Int) :
+    V2.AuthorizationResponseClaims_Validate (V2.T_AuthorizationResponseClaims.ofVal c) vr now opq =
+      some (push vr (validateAuthResponse now c)) := by
+  have h1 : (V2.T_AuthorizationResponseClaims.ofVal c).f_ClaimsData = V2.T_ClaimsData.ofVal c := rfl
+  have h2 : (V2.T_ClaimsData.ofVal c).f_Subject = (c.field "sub").asStr := rfl
+  have h3 : (V2.T_ClaimsData.ofVal c).f_Audience = (c.field "aud").asStr := rfl
+  have h4 : (V2.T_AuthorizationResponseClaims.ofVal c).f_AuthorizationResponse.f_Error = ((c.field "nats").field "error").asStr := rfl
+  have h5 : (V2.T_AuthorizationResponseClaims.ofVal c).f_AuthorizationResponse.f_Jwt = ((c.field "nats").field "jwt").asStr := rfl
+  have h6 : (V2.T_AuthorizationResponseClaims.ofVal c).f_AuthorizationResponse.f_IssuerAccount =
+      ((c.field "nats").field "issuer_account").asStr := rfl
+  unfold V2.AuthorizationResponseClaims_Validate validateAuthResponse
+  simp only [h1, h2, h3, h4, h5, h6, hUser, hServer, hAcct, claimsData_ofVal, v2_addError, Option.pure_def,
+    Option.bind_eq_bind, Option.bind_some, ite_some, push_ite, push_push, errIf]
+  congr 2
+  by_cases he : ((c.field "nats").field "error").asStr = [] <;> by_cases hj : ((c.field "nats").field "jwt").asStr = [] <;>
+    by_cases hi : ((c.field "nats").field "issuer_account").asStr = [] <;>
+    simp [he, hj, hi, bne, Bool.beq_eq_decide_eq]
+
+/-! ## The operator side -/
+
+/-- `ParseServerVersion`: never panics (the three index reads sit behind the length test) and its error result is the
+model's `serverVersionBad` -/
+theorem v2_parseServerVersion (opq : V2.Opq) (hAtoi : ∀ x, opq.strconv_Atoi x = atoi x) (v : Str) :
+    ∃ r, V2.ParseServerVersion v opq = some r ∧ r.2.2.2 = serverVersionBad v := by
+  unfold V2.ParseServerVersion serverVersionBad
+  by_cases hv : v = []
+  · simp [hv]
+  · have hs : GoRt.split v ['.'] = splitOn '.' v := rfl
+    simp only [hv, beq_iff_eq, if_false, hs, hAtoi, Option.pure_def, Option.bind_eq_bind, bne_iff_ne, ne_eq]
+    rcases hsp : splitOn '.' v with _ | ⟨a, _ | ⟨b, _ | ⟨c, _ | ⟨d, l⟩⟩⟩⟩
+    · simp [len]
+    · simp [len]
+    · simp [len]
+    · have i0 : idx [a, b, c] 0 = some a := rfl
+      have i1 : idx [a, b, c] 1 = some b := rfl
+      have i2 : idx [a, b, c] 2 = some c := rfl
+      simp only [len, List.length_cons, List.length_nil, i0, i1, i2, Option.bind_some]
+      cases ha : atoi a <;> cases hb : atoi b <;> cases hc : atoi c <;> simp
+      rename_i x y z
+      by_cases h1 : x < 0 <;> by_cases h2 : y < 0 <;> by_cases h3 : z < 0 <;> simp [h1, h2, h3]
+    · have hl : ¬ ((l.length : Int) + 1 + 1 + 1 + 1 = 3) := by omega
+      simp [len, hl]
+
+/-- `Operator.validateAccountServerURL` (row O1) -/
+theorem v2_validateAccountServerURL (env : VEnv) (opq : V2.Opq)
+    (hUrl : ∀ x, opq.url_Parse x = (env.urlParse x).map toGenURL) (n : Jwt.Val) :
+    V2.Operator_validateAccountServerURL (V2.T_Operator.ofVal n) opq =
+      some ((n.field "account_server_url").asStr ≠ [] &&
+        (match env.urlParse (n.field "account_server_url").asStr with | some u => u.scheme = [] | none => true)) := by
+  have h1 : (V2.T_Operator.ofVal n).f_AccountServerURL = (n.field "account_server_url").asStr := rfl
+  unfold V2.Operator_validateAccountServerURL
+  simp only [h1, hUrl]
+  by_cases ha : (n.field "account_server_url").asStr = []
+  · simp [ha]
+  · cases hp : env.urlParse (n.field "account_server_url").asStr with
+    | none => simp [ha]
+    | some u => by_cases hs : u.scheme = [] <;> simp [ha, toGenURL, hs]
+
+/-- `ValidateOperatorServiceURL` (row O2): credentials, path, scheme (lower-cased) -/
+theorem v2_validateOperatorServiceURL (env : VEnv) (opq : V2.Opq)
+    (hUrl : ∀ x, opq.url_Parse x = (env.urlParse x).map toGenURL) (v : Str) :
+    V2.ValidateOperatorServiceURL v opq = some (v ≠ [] && serviceUrlBad env v) := by
+  unfold V2.ValidateOperatorServiceURL serviceUrlBad
+  simp only [hUrl]
+  by_cases hv : v = []
+  · simp [hv]
+  · cases hp : env.urlParse v with
+    | none => simp [hv]
+    | some u =>
+      cases hu : u.hasUser <;> by_cases hpa : u.path = [] <;>
+        by_cases h1 : goLower u.scheme = ['n', 'a', 't', 's'] <;> by_cases h2 : goLower u.scheme = ['t', 'l', 's'] <;>
+        by_cases h3 : goLower u.scheme = ['w', 's'] <;> by_cases h4 : goLower u.scheme = ['w', 's', 's'] <;>
+        simp [hv, toGenURL, hu, hpa, h1, h2, h3, h4]
+
+theorem foldl_collect {α : Type} (p : α → Bool) : ∀ (xs : List α) (w : List Bool),
+    xs.foldl (fun w v => w ++ if p v = true then [true] else []) w = w ++ (xs.filter p).map fun _ => true := by
+  intro xs
+  induction xs with
+  | nil => intro w; simp
+  | cons x xs ih => intro w; cases hx : p x <;> simp [ih, hx, List.filter_cons]
+
+theorem flatMap_collect {α : Type} (p : α → Bool) : ∀ (xs : List α),
+    ((xs.filter p).map fun _ => true).flatMap errIf = xs.flatMap (fun v => errIf (p v)) := by
+  intro xs
+  induction xs with
+  | nil => simp
+  | cons x xs ih => cases hx : p x <;> simp [List.filter_cons, hx, ih, errIf]
+
+/-- a non-empty operator service URL that `ValidateOperatorServiceURL` refuses -/
+def svcBad (env : VEnv) (v : Str) : Bool := v ≠ [] && serviceUrlBad env v
+
+/-- `Operator.validateOperatorServiceURLs`: one (non-nil) error per bad non-empty URL, in order -/
+theorem v2_validateOperatorServiceURLs (env : VEnv) (opq : V2.Opq)
+    (hUrl : ∀ x, opq.url_Parse x = (env.urlParse x).map toGenURL) (n : Jwt.Val) :
+    V2.Operator_validateOperatorServiceURLs (V2.T_Operator.ofVal n) opq =
+      some (((n.field "operator_service_urls").strs.filter (svcBad env)).map fun _ => true) := by
+  have h1 : (V2.T_Operator.ofVal n).f_OperatorServiceURLs = (n.field "operator_service_urls").strs := rfl
+  have hb : ∀ (i : Int) (v : Str) (w : List Bool),
+      V2.Operator_validateOperatorServiceURLs.loop1 opq i v w =
+        some (.next (w ++ if svcBad env v = true then [true] else [])) := by
+    intro i v w
+    by_cases hv : v = [] <;> cases hs : serviceUrlBad env v <;>
+      simp [V2.Operator_validateOperatorServiceURLs.loop1, v2_validateOperatorServiceURL env opq hUrl, hv, hs, svcBad]
+  unfold V2.Operator_validateOperatorServiceURLs
+  simp only [h1, forRange, forRangeFrom_fold _ _ hb, foldl_collect, Option.pure_def, Option.bind_eq_bind, Option.bind_some,
+    List.nil_append]
+
+/-- `Operator.Validate` (rows O1-O5) -/
+theorem v2_operatorBodyValidate (env : VEnv) (opq : V2.Opq)
+    (hUrl : ∀ x, opq.url_Parse x = (env.urlParse x).map toGenURL)
+    (hAtoi : ∀ x, opq.strconv_Atoi x = atoi x)
+    (hAcct : ∀ x, opq.nkeys_IsValidPublicAccountKey x = validAcct x)
+    (hOp : ∀ x, opq.nkeys_IsValidPublicOperatorKey x = validOp x)
+    (n : Jwt.Val) (vr : V2.T_ValidationResults) :
+    V2.Operator_Validate (V2.T_Operator.ofVal n) vr opq = some (push vr
+      (errIf ((n.field "account_server_url").asStr ≠ [] &&
+          (match env.urlParse (n.field "account_server_url").asStr with | some u => u.scheme = [] | none => true)) ++
+       (n.field "operator_service_urls").strs.flatMap (fun v => errIf (svcBad env v)) ++
+       (n.field "signing_keys").strs.flatMap (fun k => errIf (!validOp k)) ++
+       errIf ((n.field "system_account").asStr ≠ [] && !validAcct (n.field "system_account").asStr) ++
+       errIf (serverVersionBad (n.field "assert_server_version").asStr))) := by
+  have h1 : (V2.T_Operator.ofVal n).f_SigningKeys = (n.field "signing_keys").strs := rfl
+  have h2 : (V2.T_Operator.ofVal n).f_SystemAccount = (n.field "system_account").asStr := rfl
+  have h3 : (V2.T_Operator.ofVal n).f_AssertServerVersion = (n.field "assert_server_version").asStr := rfl
+  obtain ⟨r, hr, hbad⟩ := v2_parseServerVersion opq hAtoi (n.field "assert_server_version").asStr
+  have hb1 : ∀ (i : Int) (v : Bool) (w : V2.T_ValidationResults),
+      V2.Operator_Validate.loop1 opq i v w = some (.next (push w (errIf v))) := by
+    intro i v w; cases v <;> simp [V2.Operator_Validate.loop1, v2_addError, errIf]
+  have hb2 : ∀ (i : Int) (k : Str) (w : V2.T_ValidationResults),
+      V2.Operator_Validate.loop2 opq i k w = some (.next (push w (errIf (!validOp k)))) := by
+    intro i k w; cases h : validOp k <;> simp [V2.Operator_Validate.loop2, hOp, h, v2_addError, errIf]
+  unfold V2.Operator_Validate
+  simp only [v2_validateAccountServerURL env opq hUrl, v2_validateOperatorServiceURLs env opq hUrl, h1, h2, h3, hr, hbad,
+    hAcct, forRange, forRangeFrom_fold _ _ hb1, forRangeFrom_fold _ _ hb2, foldl_push, flatMap_collect, v2_addError,
+    Option.pure_def, Option.bind_eq_bind, Option.bind_some, ite_some, push_ite, push_push]
+  congr 2
+  by_cases hsys : (n.field "system_account").asStr = [] <;> cases hv : validAcct (n.field "system_account").asStr <;>
+    simp [errIf, hsys, hv]
+
+/-- `OperatorClaims.Validate` = the model's `validateOperator` -/
+theorem v2_operatorClaimsValidate (env : VEnv) (opq : V2.Opq)
+    (hUrl : ∀ x, opq.url_Parse x = (env.urlParse x).map toGenURL)
+    (hAtoi : ∀ x, opq.strconv_Atoi x = atoi x)
+    (hAcct : ∀ x, opq.nkeys_IsValidPublicAccountKey x = validAcct x)
+    (hOp : ∀ x, opq.nkeys_IsValidPublicOperatorKey x = validOp x)
+    (c : Jwt.Val) (vr : V2.T_ValidationResults) (now : Int) :
+    V2.OperatorClaims_Validate (V2.T_OperatorClaims.ofVal c) vr now opq = some (push vr (validateOperator env now c)) := by
+  have h1 : (V2.T_OperatorClaims.ofVal c).f_ClaimsData = V2.T_ClaimsData.ofVal c := rfl
+  have h2 : (V2.T_OperatorClaims.ofVal c).f_Operator = V2.T_Operator.ofVal (c.field "nats") := rfl
+  unfold V2.OperatorClaims_Validate validateOperator
+  simp only [h1, h2, claimsData_ofVal, v2_operatorBodyValidate env opq hUrl hAtoi hAcct hOp, push_push, svcBad,
+    Option.pure_def, Option.bind_eq_bind, Option.bind_some, List.append_assoc]
+  rfl
+
+/-! ## The assumptions about what stays outside the translation, in one place -/
+
+/-- The functions translated code calls but that are not translated themselves — the standard library's parsers, the
+nkeys prefix/CRC validators, the decoder of an embedded activation token — behave as the model's environment `env`,
+its signature scheme `cr` and its key validators say. Every end-to-end statement about translated validators is
+relative to this record (tied to the real code by the correspondence streams only). -/
+structure OpqOk (env : VEnv) (cr : Crypto) (opq : V2.Opq) : Prop where
+  url : ∀ x, opq.url_Parse x = (env.urlParse x).map toGenURL
+  clock : ∀ x, opq.time_Parse "15:04:05".toList x = !env.clockOk x
+  cidr : ∀ x, opq.net_ParseCIDR x = !env.cidrOk x
+  tz : ∀ x, opq.time_LoadLocation x = !env.tzOk x
+  atoi : ∀ x, opq.strconv_Atoi x = atoi x
+  acct : ∀ x, opq.nkeys_IsValidPublicAccountKey x = validAcct x
+  user : ∀ x, opq.nkeys_IsValidPublicUserKey x = validUser x
+  op : ∀ x, opq.nkeys_IsValidPublicOperatorKey x = validOp x
+  server : ∀ x, opq.nkeys_IsValidPublicServerKey x = validServer x
+  curve : ∀ x, opq.nkeys_IsValidPublicCurveKey x = validCurve x
+  toSub : ∀ x, opq.RenamingSubject_ToSubject x = some (renamingToSubject x)
+  dec : ∀ tok, opq.DecodeActivationClaims tok =
+      some (match decodeTyped .activation cr tok with
+            | .ok c => (some (V2.T_ActivationClaims.ofVal c.val), false)
+            | .error _ => (none, true))
+
+/-- the empty result list `CreateValidationResults()` returns -/
+def vr0 : V2.T_ValidationResults := { f_Issues := [] }
+
+theorem ofGen_toGen (l : List Issue) : (l.map toGenIssue).map ofGenIssue = l := by
+  induction l with
+  | nil => rfl
+  | cons i l ih => simp [toGenIssue, ofGenIssue, ih]
+
+/-- `IsBlocking` of a translated result that started empty is the model's `isBlocking` of the pushed issues -/
+theorem isBlocking_push_vr0 (l : List Issue) (b : Bool) :
+    V2.ValidationResults_IsBlocking (push vr0 l) b = some (isBlocking l b) := by
+  rw [v2_isBlocking]
+  have : (push vr0 l).f_Issues.map ofGenIssue = l := by
+    simpa [push, vr0] using ofGen_toGen l
+  rw [this]
+
+/-- the account validator, end to end: under `OpqOk`, translated `AccountClaims.Validate` on an empty result list
+never panics and its issues are a permutation of the model's -/
+theorem gen_account (env : VEnv) (cr : Crypto) (opq : V2.Opq) (ok : OpqOk env cr opq) (c : Jwt.Val) (now : Int) :
+    ∃ a' l, V2.AccountClaims_Validate (V2.T_AccountClaims.ofVal c) vr0 now opq = some (a', push vr0 l) ∧
+      l.Perm (validateAccount env cr now c) :=
+  v2_accountClaimsValidate env cr opq (v2_infoValidate env opq ok.url) ok.atoi ok.acct ok.user ok.curve ok.toSub ok.dec
+    c vr0 now
 
 end Jwt.FnTie
